@@ -396,6 +396,26 @@ def rule_e(ctx: Context, R: Reporter, gc: ClassInfo, hc: ClassInfo):
                 R.check("C15.e", "weighted covariance estimators are replication-consistent", okb, f, c,
                         msg=f"{f.short}: `{unparse(c)[:70]}` uses np.cov's reliability weights with its default bias correction: the estimate differs from the one obtained by "
                             f"replicating points according to integer weights (and from the EM M-step of the other code path)", key=f"cov-aweights:{f.short}")
+    # the weight vector keeps a floating dtype of its own: a conversion to a dtype taken from the data truncates
+    # fractional weights for integer-valued data (lattice points, duplicated points), so weights m/2 no longer act
+    # like replication by m and an all-fractional vector becomes all zero
+    FLOAT_OK = {"float", "np.float64", "numpy.float64", "np.double", "'float64'", '"float64"', "np.float_", "np.longdouble", "None"}
+    for f in ctx.prog.functions.values():
+        if f.module is not gc.module or "sample_weight" not in f.params:
+            continue
+        for n_ in walk_no_nested(f.node):
+            if not (isinstance(n_, ast.Assign) and any(isinstance(t, ast.Name) and t.id == "sample_weight" for t in n_.targets)):
+                continue
+            for c in ast.walk(n_.value):
+                if isinstance(c, ast.Call):
+                    dt = next((k.value for k in c.keywords if k.arg == "dtype"), None)
+                    if isinstance(c.func, ast.Attribute) and c.func.attr == "astype" and c.args:
+                        dt = c.args[0]
+                    if dt is not None and norm_text(dt) not in FLOAT_OK:
+                        R.check("C15.e", "sample weights are kept in a floating dtype of their own", False, f, c,
+                                msg=f"{f.short}: `{unparse(c)[:60]}` converts the sample weights to `{unparse(dt)}`: for integer-valued data the weights are truncated to integers "
+                                    f"before normalisation (fractional weights no longer equivalent to replication; all-fractional weights become zero)",
+                                key=f"weights-dtype:{f.short}")
     n = 0
     for cls in (gc, hc):
         fit = cls.methods["fit"]
